@@ -23,6 +23,9 @@
  *                    every xmm register overwritten by a libc function the hook reaches (the
  *                    interposed clock_gettime)                      -> "XE <ret> <errno_ok> <32 hex words after>"
  *   XR <s> <32 hex words>       like R, the same way around every exit hook  -> "XR <exits> <word> <errno_ok> <32 words>"
+ *   YMM <128 hex words> ymm0..15 before (4 words each, low first), then the clobber values; runs
+ *                    save; clobber; restore on the 256-bit registers if the CPU has AVX, else on the xmm
+ *                    registers (upper words then echo the clobber)              -> "YMM <avx> <64 hex words>"
  *   XMM <64 hex words>  xmm0..15 before (lo hi ...), then the clobber values; runs
  *                    save; clobber; restore                                         -> "XMM <32 hex words>"
  *   QUIT
@@ -152,6 +155,22 @@ asm(".text\n .globl xmm_roundtrip\n .type xmm_roundtrip,@function\n xmm_roundtri
     " pop %rbp\n pop %r14\n pop %r13\n pop %r12\n pop %rbx\n ret\n"
     " .size xmm_roundtrip, .-xmm_roundtrip\n");
 
+/* the same with the 256-bit registers (only called when the CPU has AVX) */
+void ymm_roundtrip(const uint64_t *before, const uint64_t *clobber, uint64_t *after, void *ctx);
+#define LDY(i, base) " vmovdqu " #i "*32(%" base "), %ymm" #i "\n"
+#define STY(i, base) " vmovdqu %ymm" #i ", " #i "*32(%" base ")\n"
+asm(".text\n .globl ymm_roundtrip\n .type ymm_roundtrip,@function\n ymm_roundtrip:\n"
+    " push %rbx\n push %r12\n push %r13\n push %r14\n push %rbp\n"
+    " mov %rdi, %rbx\n mov %rsi, %r12\n mov %rdx, %r13\n mov %rcx, %r14\n"
+    X16(LDY, "rbx")
+    " mov %r14, %rdi\n call mcount_save_arch_context\n"
+    X16(LDY, "r12")
+    " mov %r14, %rdi\n call mcount_restore_arch_context\n"
+    X16(STY, "r13")
+    " vzeroupper\n"
+    " pop %rbp\n pop %r14\n pop %r13\n pop %r12\n pop %rbx\n ret\n"
+    " .size ymm_roundtrip, .-ymm_roundtrip\n");
+
 /* after := xmm0..15 after calling fn(a1, a2, a3) with xmm0..15 = before; returns fn's result */
 unsigned long call_with_xmm(const uint64_t *before, uint64_t *after, void *fn, long a1, long a2, long a3);
 asm(".text\n .globl call_with_xmm\n .type call_with_xmm,@function\n call_with_xmm:\n"
@@ -195,7 +214,7 @@ static void snap(void)
 
 int main(int argc, char **argv)
 {
-	static char line[1 << 14];
+	static char line[1 << 15];
 
 	if (argc > 1)
 		nshow = atoi(argv[1]);
@@ -331,6 +350,38 @@ int main(int argc, char **argv)
 			pword(slots[s]);
 			printf(" %d", ok);
 			for (i = 0; i < 32; i++)
+				printf(" %llx", (unsigned long long)after[i]);
+		}
+		else if (!strcmp(op, "YMM")) {
+			static uint64_t before[64], clobber[64], after[64];
+			static uint64_t ctx[128] __attribute__((aligned(32)));
+			char *p = line + 3;
+			int i, avx = __builtin_cpu_supports("avx");
+			for (i = 0; i < 128; i++) {
+				uint64_t w = strtoull(p, &p, 16);
+				if (i < 64)
+					before[i] = w;
+				else
+					clobber[i - 64] = w;
+			}
+			memset(ctx, 0, sizeof(ctx));
+			memset(after, 0xee, sizeof(after));
+			if (avx)
+				ymm_roundtrip(before, clobber, after, ctx);
+			else {
+				uint64_t b[32], c[32], a[32];
+				for (i = 0; i < 16; i++) {
+					b[2 * i] = before[4 * i], b[2 * i + 1] = before[4 * i + 1];
+					c[2 * i] = clobber[4 * i], c[2 * i + 1] = clobber[4 * i + 1];
+				}
+				xmm_roundtrip(b, c, a, ctx);
+				for (i = 0; i < 16; i++) {
+					after[4 * i] = a[2 * i], after[4 * i + 1] = a[2 * i + 1];
+					after[4 * i + 2] = clobber[4 * i + 2], after[4 * i + 3] = clobber[4 * i + 3];
+				}
+			}
+			printf("YMM %d", avx ? 1 : 0);
+			for (i = 0; i < 64; i++)
 				printf(" %llx", (unsigned long long)after[i]);
 		}
 		else if (!strcmp(op, "XMM")) {
